@@ -106,3 +106,85 @@ def gen_decrypt_metadata_cases():
         for b_ in blobs:
             out.append({"encrypted_metadata": _b(b_), "private_key": {"rsa_key": bits}})
     return out
+
+
+def xorencode(plain, nonce=b"\x11\x22\x33\x44", stub=b""):
+    """reference XorEncoded container: stub | nonce | size ^ nonce | rolling-xor payload"""
+    out = bytearray(stub + nonce + bytes(a ^ b for a, b in zip(len(plain).to_bytes(4, "little"), nonce)))
+    key = bytearray(nonce)
+    for i, c in enumerate(plain):
+        e = c ^ key[i % 4]
+        out.append(e)
+        key[i % 4] = e
+    return bytes(out)
+
+
+def xf(E, off, rawpos):
+    """XorEncodedFile over io.BytesIO(E) at nonce offset off with the raw position set to rawpos"""
+    import io
+    from dissect.cobaltstrike.xordecode import XorEncodedFile
+    f = XorEncodedFile(io.BytesIO(E), off)
+    f.fh.seek(rawpos)
+    return f
+
+
+def gen_xf_objects():
+    out = []
+    for plain in (b"", b"A", b"MZ\x90", b"MZ\x90\x00\x03", b"0123456789", bytes(range(13))):
+        for stub in (b"", b"\xeb\xfe\xff"):
+            E = xorencode(plain, stub=stub)
+            off = len(stub)
+            for lpos in list(range(0, len(plain) + 1)) + [len(plain) + 3, len(plain) + 50]:
+                out.append({"py": f"xf({E!r}, {off}, {off + 8 + lpos})"})
+    out.append({"py": "xf(b'\\x01\\x02\\x03', 0, 8)"})       # truncated header
+    out.append({"py": "xf(b'\\x01\\x02\\x03\\x04\\x05\\x06', 1, 9)"})
+    return out
+
+
+def mini_pe(machine=0x8664, e_lfanew=0x40, stamp=0x5f94c216, nsections=1, export_rva=0x1000, export_stamp=0x5fa0b201,
+            opt_magic=None, append=b"", mzmagic=b"MZ"):
+    """a minimal PE image: DOS header, PE signature, COFF header, optional header (x86/x64), one section
+    holding an export directory"""
+    is64 = machine == 0x8664
+    dos = bytearray(64)
+    dos[0:2] = mzmagic
+    dos[60:64] = e_lfanew.to_bytes(4, "little", signed=True)
+    pad = b"\x00" * max(0, e_lfanew - 64)
+    opt_size = 240 if is64 else 224
+    coff = machine.to_bytes(2, "little") + nsections.to_bytes(2, "little") + stamp.to_bytes(4, "little") + bytes(8) + \
+        opt_size.to_bytes(2, "little") + bytes(2)
+    opt = bytearray(opt_size)
+    opt[0:2] = ((0x20b if is64 else 0x10b) if opt_magic is None else opt_magic).to_bytes(2, "little")
+    hdr_size = e_lfanew + 4 + 20 + opt_size + 40 * nsections
+    opt[60:64] = hdr_size.to_bytes(4, "little")          # SizeOfHeaders
+    dd = opt_size - 128
+    opt[dd:dd + 4] = export_rva.to_bytes(4, "little")
+    opt[dd + 4:dd + 8] = (40).to_bytes(4, "little")
+    sections = b""
+    raw_ptr = hdr_size
+    for k in range(nsections):
+        sec = bytearray(40)
+        sec[0:5] = b".data"
+        sec[8:12] = (0x200).to_bytes(4, "little")            # VirtualSize
+        sec[12:16] = (0x1000 * (k + 1)).to_bytes(4, "little")  # VirtualAddress
+        sec[16:20] = (0x200).to_bytes(4, "little")           # SizeOfRawData
+        sec[20:24] = (raw_ptr + 0x200 * k).to_bytes(4, "little")
+        sections += bytes(sec)
+    body = bytearray(0x200 * max(nsections, 1))
+    body[4:8] = export_stamp.to_bytes(4, "little")
+    return bytes(dos) + pad + b"PE\x00\x00" + coff + bytes(opt) + sections + bytes(body) + append
+
+
+def gen_pe_files():
+    out = []
+    imgs = [mini_pe(), mini_pe(machine=0x14c), mini_pe(machine=0x200), mini_pe(e_lfanew=0x80), mini_pe(e_lfanew=2000),
+            mini_pe(nsections=0), mini_pe(nsections=3, export_rva=0x2000), mini_pe(export_rva=0x9000)]
+    for img in imgs:
+        for prep in (b"", b"\x90" * 3, b"MZ" + b"\x00" * 70):
+            for cut in (None, 40, 70, 100, 300):
+                data = prep + img
+                if cut is not None:
+                    data = data[:len(prep) + cut]
+                out.append({"file": {"bytes": list(data)}, "pos": 0, "fkind": "bytesio"})
+    out.append({"file": {"bytes": []}, "pos": 0, "fkind": "bytesio"})
+    return out
